@@ -87,6 +87,7 @@ type c13World struct {
 	hist      []string
 	reachable bool
 	lastOut   string
+	lastErr   string
 	// export → validate → init → export2 pipeline state
 	gen      *c13Gen
 	list1    string
@@ -592,6 +593,8 @@ func (w *c13World) apply(r *Rec, op string) (out string) {
 		write()
 		r.Count("rvparams." + f[1])
 		return "ok"
+	case "update", "bscupdate", "plant", "unplant":
+		return w.applyUpdateOp(r, f)
 	case "rawx":
 		w.reachable = false
 		w.ctx.KVStore(w.app.GetKey(host.StoreKey)).Set(unhx(f[1]), unhx(f[2]))
@@ -616,6 +619,25 @@ func (w *c13World) apply(r *Rec, op string) (out string) {
 		}
 		w.gen = g
 		w.list1 = w.c13Listing(g)
+		// every exported client-metadata entry has a non-empty key and a non-empty value (what GenesisMetadata.Validate demands),
+		// checked on the export itself — independent of the module's Validate() and of any re-import
+		if w.reachable {
+			for _, cm := range g.x.ClientGenesis.ClientsMetadata {
+				for _, e := range cm.Metadata {
+					if len(e.Key) == 0 || len(e.Value) == 0 {
+						what := "value"
+						if len(e.Key) == 0 {
+							what = "key"
+						}
+						r.Find(Finding{Sig: "C13:export-metadata-empty-" + what + ":" + c13Family("x", append([]byte("clients/x/"), e.Key...)),
+							What: "an exported client-metadata entry has an empty " + what + " (client " + cm.ChainName + ", key " + string(e.Key) + ")",
+							Ops: append([]string{}, w.hist...), Obs: "empty " + what, Req: "non-empty key and value"})
+						r.Count("export.metadata-empty")
+					}
+				}
+			}
+			r.Count("export.metadata-checked")
+		}
 		// export vs store, independent of any re-import: as many exported entries of each collection as the store holds
 		if w.reachable {
 			m := c13ParseDump(w.dump1)
@@ -1170,7 +1192,7 @@ type c13Client struct {
 
 // create / toggle are proposal-level operations: they may be rejected (ClientState.Validate, Initialize)
 func c13MayFail(op, out string) bool {
-	return out == "err" && (strings.HasPrefix(op, "create ") || strings.HasPrefix(op, "toggle ") || strings.HasPrefix(op, "upgrade ") || strings.HasPrefix(op, "rvparams "))
+	return out == "err" && (strings.HasPrefix(op, "create ") || strings.HasPrefix(op, "toggle ") || strings.HasPrefix(op, "upgrade ") || strings.HasPrefix(op, "rvparams ") || strings.HasPrefix(op, "update ") || strings.HasPrefix(op, "bscupdate "))
 }
 
 type c13Fix struct {
@@ -1947,6 +1969,35 @@ func c13WriteCorpus(t *testing.T, r *Rec, dir string) {
 			emit("rawx " + hxs("clients/tmchain/zzz") + " " + hx([]byte{4}))
 		}},
 	}
+	// histories driven by the real update paths (the pipeline is taken inside the history, at every phase)
+	for _, rh := range []struct {
+		name string
+		f    func(emit func(string), tail func(string))
+	}{
+		{"real-bsc-updates", func(e func(string), tl func(string)) { w.genBscReal(r, e, tl) }},
+		{"real-bsc-across-two-switches", func(e func(string), tl func(string)) { w.genBscRealAt(r, e, tl, 20, 27, true) }},
+		{"real-tm-updates", func(e func(string), tl func(string)) { w.genTmReal(r, e, tl) }},
+		{"real-eth-updates", func(e func(string), tl func(string)) { w.genEthReal(r, e, tl) }},
+	} {
+		var ops []string
+		w.apply(r, "reset")
+		emit := func(op string) {
+			if out := w.apply(r, op); out != "ok" && !c13MayFail(op, out) {
+				t.Fatalf("corpus %s: %q -> %s", rh.name, op, out)
+			}
+			ops = append(ops, op)
+		}
+		tail := func(string) {
+			for _, op := range c13Tail {
+				w.apply(r, op)
+				ops = append(ops, op)
+			}
+		}
+		rh.f(emit, tail)
+		if err := os.WriteFile(dir+"/"+rh.name+".ops", []byte(strings.Join(ops, "\n")+"\n"), 0o644); err != nil {
+			t.Fatal(err)
+		}
+	}
 	for _, h := range hs {
 		var ops []string
 		w.apply(r, "reset")
@@ -1999,6 +2050,7 @@ func TestC13(t *testing.T) {
 	if r.Tier == "thorough" {
 		cases = 600
 	}
+	sizeIdx := 0
 	for c := 0; c < cases; c++ {
 		r.Op("reset", w.apply(r, "reset"))
 		emit := func(op string) {
@@ -2012,10 +2064,29 @@ func TestC13(t *testing.T) {
 		if c%10 == 0 {
 			size = 0
 		}
-		sized := c%5 == 2
+		sized := c%5 == 2 && c%8 != 3
+		if c%8 == 3 {
+			// states produced by the REAL update paths, the pipeline taken at every phase
+			tail := func(phase string) {
+				for _, op := range c13Tail {
+					r.Op(op, w.apply(r, op))
+				}
+				r.Count(c13PhaseKey(phase))
+			}
+			switch (c / 8) % 3 {
+			case 0:
+				w.genBscReal(r, emit, tail)
+			case 1:
+				w.genTmReal(r, emit, tail)
+			default:
+				w.genEthReal(r, emit, tail)
+			}
+			continue
+		}
 		if sized {
 			// SIZE dimension: kinds cycle, classes rotate with the shard and the seed so that every (kind, class) pair is reached
-			i := c / 5
+			i := sizeIdx
+			sizeIdx++
 			kind := c13SizeKinds[i%len(c13SizeKinds)]
 			cls := c13SizeClasses[(i/len(c13SizeKinds)+i+r.Shard*3+int(r.Seed))%len(c13SizeClasses)]
 			if cls == 1000 && (i/len(c13SizeKinds)+r.Shard)%3 != 0 {
